@@ -9,7 +9,11 @@ Tie (two correspondences, both compared inside Coq with Power.model_val):
 Oracle: the property stated directly in Python with Fractions (valid samples of a rank -> 12 V * dQ mod 2^32 / 512 / dt,
 clamp > 100 -> 0, never negative, time order, energy against the generator's un-wrapped charge), evaluated on the
 implementation's output; on an exact grid it demands equality, on the off-grid stream a relative tolerance of 1e-9.
-A third, oracle-only stream runs the whole tool (Acelyzer API) on generated FLEX files.
+A third, oracle-only stream runs the whole tool (Acelyzer API) on generated FLEX files; part of it mixes the four
+phases of a device job (DmaI / Cmpt Prep / Cmpt Exec / DmaO slices, each reported by the host over its own phase, 1-2
+ranks in separate files) with names as data (text after a DMA keyword), arbitrary TS1..TS5 layouts, phases below the
+0.1 us cut-off inside long TS1..TS5 spans and zero readings; there the counter must sit at the absolute host time of
+TS4.
 Options the result may not depend on: the log level (-D 0..4) is drawn per case in all three streams (the model has
 no such input, so a dependence shows in the tie as well as in the oracle). Size: long series (2500..6000 samples of a
 rank, most on its first lane, a few on further lanes that are early / anywhere / late in time) go through the
@@ -72,10 +76,14 @@ ASSUMPTIONS = [
     "device slices reach extract_power_event as X (or b) events carrying args.Power, args.ts_all and dur",
     "events of one rank share a pid; helper counters carry no tid",
     "incoming events are not themselves counters named 'Power' or events carrying TS_cycles (the tool's input has none)",
+    "end to end: the phase of a device slice is the keyword its name contains (' DmaI', ' Cmpt Prep', ' Cmpt Exec', "
+    "' DmaO'); text may follow a DMA keyword, a name with ' Cmpt Exec' / ' Cmpt Prep' in the middle is outside the "
+    "tool's name domain (DESIGN 8.7); the host reports a slice over its own phase, consistently with the counter",
 ]
 
 W32 = 2 ** 32
-NAMES_OK = ["k Cmpt Exec", "mm Cmpt Exec", "k DmaI", "k DmaO", "AllReduce_all_reduce", "Prepare x", "conv"]
+NAMES_OK = ["k Cmpt Exec", "mm Cmpt Exec", "k DmaI", "k DmaO", "AllReduce_all_reduce", "Prepare x", "conv",
+            "w DmaI [chunk 2]", "t DmaO (copy)", "s DmaO_1"]        # (names are data: the keyword need not end the name)
 NAMES_PREP = ["k Cmpt Prep", "a Prepare"]
 PIDS = [0, 1, 2, 3, 7, 12]
 GRID = Fraction(1, 1024)
@@ -816,16 +824,111 @@ def e2e_long_scenario(r, k, n, loglevel=0):
             "loglevel": loglevel, "long": n, "lanes": len({t for t, _, _ in kern})}
 
 
+# the four phases of a device job: (keyword of the name, TS index where the phase starts, where it ends)
+PHASES = {"DmaI": (" DmaI", 0, 1), "Prep": (" Cmpt Prep", 1, 2), "Exec": (" Cmpt Exec", 2, 3), "DmaO": (" DmaO", 3, 4)}
+NAME_HEADS = ["k3", "tensor_out", "weights", "scratch", "aten::add", "fused_mul-add.7", "layer3/attn", "conv2d(bias)",
+              "x", "Prepare q", "req_12_x", "üñî", "a  b"]
+DMA_TAILS = [" (copy)", " [chunk 2]", "_1", ".bwd", " x", "-2", " #3", ":0", " 17", "/out", " → hbm"]
+
+
+def phase_name(r, kind, i):
+    """names are data: anything in front of the phase keyword, and for the two DMA phases also behind it (a name with
+    ' Cmpt Exec' / ' Cmpt Prep' in the middle is outside the name domain of the tool, DESIGN 8.7)"""
+    name = f"{r.choice(NAME_HEADS)}{i}" + PHASES[kind][0]
+    if kind in ("DmaI", "DmaO") and r.random() < 0.6:
+        name += r.choice(DMA_TAILS)
+    return name
+
+
+def phase_len(r, own):
+    x = r.random()
+    if own:                                      # the slice's own phase: never empty
+        if x < 0.25:
+            return r.randint(1, 102)             # below the 0.1 us cut-off at 1024 MHz (102 cycles = 0.0996 us)
+        if x < 0.35:
+            return r.choice([102, 103])          # the two sides of the cut-off (103 cycles = 0.1006 us)
+        return r.randint(104, 40000)
+    if x < 0.3:
+        return 0
+    if x < 0.5:
+        return r.randint(1, 102)
+    return r.randint(103, 40000)
+
+
+def e2e_name_kind(name):
+    """(phase of a generated name, whether text follows the keyword) - for the distribution only"""
+    for kind, (key, _, _) in PHASES.items():
+        if key in name:
+            return kind, not name.endswith(key)
+    raise ValueError(name)
+
+
+def e2e_phase_rank(r, pid, n):
+    """one rank (one input file): n device slices one after the other on a lane, each a DmaI / Cmpt Prep / Cmpt Exec /
+    DmaO slice reported by the host over its own phase (B at the phase's first TS, E at its last; host clock and
+    device counter agree: host = host0 + (cycle - cyc0) / freq). The charge counter is read at TS4 of every slice
+    and is monotone over the rank. Returns (events, [(ts4, reading, sampled-by-the-property-text)])"""
+    freq = 1024.0
+    cyc0 = r.randint(10 ** 6, 2 ** 31)
+    host0 = 1.0e6 + r.randint(0, 10 ** 6)
+    u = r.randint(1, W32 - 1)
+    if r.random() < 0.4:
+        u = W32 - r.randint(1, 200000)
+    evs, rows, cyc, prev4 = [], [], cyc0 + r.randint(0, 5000), None
+    for i in range(n):
+        kind = r.choice(["Exec", "Exec", "DmaI", "DmaI", "DmaO", "DmaO", "DmaO", "Prep"])
+        _, a, b = PHASES[kind]
+        d = [phase_len(r, own=(j == a)) for j in range(4)]
+        ts = [cyc + sum(d[:j]) for j in range(5)]
+        if prev4 is not None:
+            u += r.randint(0, int(4000 * (ts[3] - prev4) / freq))
+            if r.random() < 0.12:                # an implausible burst: far above 100 W since the previous TS4
+                u += r.randint(3, 40) * int(4267 * (ts[3] - prev4 + 200000) / freq)
+        prev4 = ts[3]
+        q = u % W32 or 1
+        if r.random() < 0.06:
+            q = 0                                # no reading
+        name = phase_name(r, kind, i)
+        attr = {"Power": hex(q)}
+        attr.update({f"TS{j + 1}": hex(ts[j] % W32) for j in range(5)})
+        for ph, c in (("B", ts[a]), ("E", ts[b])):
+            evs.append({"attr": dict(attr), "name": name, "ph": ph, "pid": pid, "tid": 77,
+                        "ts": host0 + (c - cyc0) / freq})
+        # the property text: a sample per device slice that is no Prep slice and not below the 0.1 us cut-off
+        rows.append((ts[3], q, kind != "Prep" and Fraction(ts[b] - ts[a]) / Fraction(freq) > Fraction(1, 10)))
+        cyc = ts[4] + r.randint(64, 30000)
+    return evs, rows, host0, cyc0
+
+
+def e2e_phase_scenario(r, k):
+    nr = r.choice([1, 1, 2])
+    pids = r.sample([0, 1, 2, 3], nr)
+    files, ranks = [], {}
+    for pid in pids:
+        evs, rows, host0, cyc0 = e2e_phase_rank(r, pid, r.randint(3, 12))
+        files.append(evs)
+        # valid samples: sampled slices with a reading, in TS4 order (all TS4 of a rank are distinct here)
+        ranks[str(pid)] = {"readings": [(c, q) for c, q, smp in rows if smp and q != 0], "host0": host0, "cyc0": cyc0,
+                           "slices": len(rows)}
+    return {"freq": 1024.0, "files": files, "ranks": ranks, "name": f"c10_e2e_phase_{k}",
+            "loglevel": r.choice(LOGLEVELS)}
+
+
 def run_e2e(ctx, sc, work):
-    """whole tool, in process; returns (per-pid [(ts, watts)], error)"""
+    """whole tool, in process; returns ([(ts, watts)] of the rank - {pid: [(ts, watts)]} for a scenario of several
+    files -, error)"""
     from aiu_trace_analyzer.core.acelyzer import Acelyzer
-    inp = os.path.join(work, sc["name"] + ".json")
+    files = sc["files"] if "files" in sc else [sc["events"]]
+    inps = []
+    for j, evs in enumerate(files):
+        inps.append(os.path.join(work, f"{sc['name']}_{j}.json"))
+        with open(inps[-1], "w") as fd:
+            json.dump(evs, fd)
     outp = os.path.join(work, sc["name"] + "_out.json")
-    json.dump(sc["events"], open(inp, "w"))
     with quiet():
         try:
-            rc = Acelyzer(["-i", inp, "-o", outp, "--freq", str(sc["freq"]), "-D", str(sc.get("loglevel", 0)),
-                           "--disable_tb"]).run()
+            rc = Acelyzer(["-i", ",".join(inps), "-o", outp, "--freq", str(sc["freq"]),
+                           "-D", str(sc.get("loglevel", 0)), "--disable_tb"]).run()
         except SystemExit as e:
             return None, f"SystemExit({e.code})"
         except Exception as e:  # noqa: BLE001
@@ -836,20 +939,38 @@ def run_e2e(ctx, sc, work):
         return None, f"rc={rc}"
     data = json.load(open(outp))
     evs = data["traceEvents"] if isinstance(data, dict) else data
-    got = [(e["ts"], e["args"]["Watts"]) for e in evs
-           if e.get("ph") == "C" and e.get("name") == "Power" and isinstance(e.get("args"), dict) and "Watts" in e["args"]]
-    return got, None
+    pw = [e for e in evs
+          if e.get("ph") == "C" and e.get("name") == "Power" and isinstance(e.get("args"), dict) and "Watts" in e["args"]]
+    if "files" in sc:
+        got = {}
+        for e in pw:
+            got.setdefault(str(e.get("pid")), []).append((e["ts"], e["args"]["Watts"]))
+        return got, None
+    return [(e["ts"], e["args"]["Watts"]) for e in pw], None
 
 
 def oracle_e2e(sc, got):
-    """every kernel is a valid sample (distinct TS4, non-zero reading, long slices): n-1 counters, non-negative,
-    <= 100, strictly increasing ts, and P_i * (t_{i+1} - t_i) = 12/512 * dQ_i (0 when that is above 100 W, whatever
-    the log level); dt between exported counters must also equal the TS4 cycle distance / freq. `readings` is in
-    TS4 order over all lanes of the rank."""
+    """a scenario of several ranks: every rank on its own (a rank the scenario does not know may not have samples)"""
+    if "ranks" in sc:
+        fails = []
+        for pid in sorted(set(sc["ranks"]) | set(got)):
+            rk = sc["ranks"].get(pid, {"readings": []})
+            one = dict(rk, freq=sc["freq"])
+            fails += [dict(f, pid=pid) for f in oracle_e2e_rank(one, got.get(pid, []))]
+        return fails
+    return oracle_e2e_rank(sc, got)
+
+
+def oracle_e2e_rank(sc, got):
+    """`readings` = the valid samples of the rank in TS4 order over all its lanes (distinct TS4, non-zero reading,
+    no Prep slice, not below the cut-off) as (TS4 cycle, reading): n-1 counters, non-negative, <= 100, strictly
+    increasing ts, and P_i * (t_{i+1} - t_i) = 12/512 * dQ_i (0 when that is above 100 W, whatever the log level);
+    dt between exported counters must also equal the TS4 cycle distance / freq, and where the scenario states the
+    host time of a cycle count (host0 at cyc0) the counter sits at the host time of TS4."""
     n = len(sc["readings"])
     fails = []
-    if len(got) != n - 1:
-        return [{"kind": "e2e_sample_count", "expected_n": n - 1, "observed_n": len(got)}]
+    if len(got) != max(n - 1, 0):
+        return [{"kind": "e2e_sample_count", "expected_n": max(n - 1, 0), "observed_n": len(got)}]
     ts = [t for t, _ in got]
     if any(not a < b for a, b in zip(ts, ts[1:])):
         fails.append({"kind": "e2e_time_order"})
@@ -862,6 +983,9 @@ def oracle_e2e(sc, got):
         # (the end of the last counter's interval is not exported: the TS4 distance of the input stands in for it)
         dt_obs = Fraction(got[i + 1][0]) - Fraction(got[i][0]) if i + 1 < len(got) else dt_true
         # (freq 1024 MHz and an integer host origin: every time is a multiple of 2^-10 us, nothing may round it)
+        if "host0" in sc and Fraction(got[i][0]) != Fraction(sc["host0"]) + Fraction(c0 - sc["cyc0"]) / Fraction(sc["freq"]):
+            fails.append({"kind": "e2e_counter_not_at_ts4", "index": i, "absolute": True})
+            break
         if dt_true != dt_obs:
             fails.append({"kind": "e2e_counter_not_at_ts4", "index": i})
             break
@@ -879,7 +1003,7 @@ def oracle_e2e(sc, got):
 # ---------------------------------------------------------------- check
 def gen_cases(ctx):
     r = ctx.rng
-    cases = load_corpus()
+    cases = [c for c in load_corpus() if c.get("mode") != 2]          # (whole-tool corpus scenarios: see run)
     n_corpus = len(cases)
     exh = exhaustive_compute_cases(ctx)
     cases += exh
@@ -908,7 +1032,10 @@ def run(ctx):
     dist = {"mode": {"pipeline": 0, "compute_only": 0}, "skip_events": 0, "slices_per_case": {}, "ranks": {},
             "features": {}, "impl_errors": {}, "offgrid_cases": len(off), "corpus": n_corpus,
             "exhaustive_compute_sequences": n_exh, "loglevel": {}, "clamped_at_debug_or_trace": 0, "long_series": [],
-            "end_to_end_loglevel": {}, "end_to_end_long": []}
+            "end_to_end_loglevel": {}, "end_to_end_long": [],
+            "end_to_end_phase_slices": {"scenarios": 0, "two_ranks": 0, "DmaI": 0, "Prep": 0, "Exec": 0, "DmaO": 0,
+                                        "dma_name_with_text_after_keyword": 0, "below_cutoff_inside_long_span": 0,
+                                        "zero_reading": 0}}
     for case in cases:
         out = run_case(case)
         terms.append((coq_case(case), enc.V(out)))
@@ -963,23 +1090,40 @@ def run(ctx):
     work = tempfile.mkdtemp(prefix="c10_", dir=ctx.work)
     try:
         r2 = random.Random(ctx.seed * 7919 + 17)
-        scs = [e2e_scenario(r2, k) for k in range(ctx.pick(40, 400))]
+        scs = [dict(c["scenario"], _corpus=c["_corpus"]) for c in load_corpus() if c.get("mode") == 2]
+        scs += [e2e_scenario(r2, k) for k in range(ctx.pick(40, 400))]
+        r4 = random.Random(ctx.seed * 15485863 + 29)
+        scs += [e2e_phase_scenario(r4, k) for k in range(ctx.pick(250, 2500))]
         scs += [e2e_long_scenario(r2, k, n, lv) for k, (n, lv) in enumerate(long_sizes(ctx, r2, ctx.pick(5, 30)))]
         for sc in scs:
             got, err = run_e2e(ctx, sc, work)
             n_e2e += 1
             lv = sc.get("loglevel", 0)
             dist["end_to_end_loglevel"][lv] = dist["end_to_end_loglevel"].get(lv, 0) + 1
+            if "ranks" in sc:
+                ph = dist["end_to_end_phase_slices"]
+                ph["scenarios"] += 1
+                ph["two_ranks"] += int(len(sc["files"]) > 1)
+                for evs in sc["files"]:
+                    for e in evs:
+                        if e["ph"] == "B":
+                            kind, tail = e2e_name_kind(e["name"])
+                            own = int(e["attr"][f"TS{PHASES[kind][2] + 1}"], 16) - int(e["attr"][f"TS{PHASES[kind][1] + 1}"], 16)
+                            span = int(e["attr"]["TS5"], 16) - int(e["attr"]["TS1"], 16)
+                            ph[kind] += 1
+                            ph["dma_name_with_text_after_keyword"] += int(tail)
+                            ph["below_cutoff_inside_long_span"] += int(kind != "Prep" and 0 <= own <= 102 < span)
+                            ph["zero_reading"] += int(int(e["attr"]["Power"], 16) == 0)
             if "long" in sc:
                 dist["end_to_end_long"].append({"kernels_first_lane": sc["long"], "lanes": sc["lanes"],
                                                 "loglevel": lv})
             if err:
                 e2e_err[err[:60]] = e2e_err.get(err[:60], 0) + 1
-                failures.append({"input": {"mode": 2, "scenario": sc}, "signature": {"kind": "e2e_run_failed",
+                failures.append({"input": {"mode": 2, "scenario": strip(sc)}, "signature": {"kind": "e2e_run_failed",
                                                                                     "error": err[:60]}})
                 continue
             for f in oracle_e2e(sc, got)[:1]:
-                failures.append({"input": {"mode": 2, "scenario": sc}, "signature": f})
+                failures.append({"input": {"mode": 2, "scenario": strip(sc)}, "signature": f})
     finally:
         shutil.rmtree(work, ignore_errors=True)
     dist["end_to_end_runs"] = n_e2e
@@ -1009,8 +1153,9 @@ def run(ctx):
                 "incomplete neighbours, perturbed stream order) + random compute_power sequences + off-grid slice "
                 "streams (oracle only) + long series of 2500..6000 samples on 1-4 lanes (oracle; the first "
                 f"{ctx.pick(1, 4)} also through the model); the log level 0..4 is drawn per case; end-to-end runs "
-                "(log level 0..4, some with 2500..6000 kernels on one lane and further lanes) are counted in "
-                "evaluations only",
+                "(log level 0..4, some with 2500..6000 kernels on one lane and further lanes, some with 1-2 ranks of "
+                "DmaI / Cmpt Prep / Cmpt Exec / DmaO slices whose DMA names carry text after the keyword, phases "
+                "below the cut-off inside long TS1..TS5 spans, zero readings) are counted in evaluations only",
         "samples": samples, "mismatches": mism, "oracle_failures": oracle_failures,
         "ties": [{"name": "Power.model_val = registered power stages on the real EventProcessor / compute_power alone",
                   "cases": len(cases), "mismatching": len(bad), "coq_seconds": round(secs, 1)},
